@@ -36,7 +36,8 @@ LEVEL = {
                "exception classes; (R01.3) pass-through tools yield the very source objects (origin analysis of every "
                "yield); (R01.4) multi-source tools visit their sources in argument order (zip arguments of lock-step tools in parameter "
                "order); (R01.5) a finishing tee child removes exactly its own buffer; (R01.6) merge recomputes the sort key "
-               "for every newly pulled head; (R01.7) items are opaque: identity tests on items only against private sentinels.",
+               "for every newly pulled head; (R01.7) items are opaque: identity tests on items only against private sentinels; (R01.8) "
+               "public defaults equal the stdlib's; (R01.9) every yield is reachable and one-to-one tools yield between pulls.",
     "not_decided": "value-level equality of the produced sequences for arbitrary inputs and parameters (islice "
                    "start/stop/step arithmetic, zip/zip_longest/batched lengths, accumulate values, tee contents) — a "
                    "function of run-time data that no static argument here bounds.",
